@@ -9,6 +9,7 @@
 //!   --behaviours FILE       behaviours printed by TLC in simulation mode of KAuthTokensMC (one JSON
 //!                           array of model actions per line; model time unit = UNIT seconds)
 //!   --replay FILE           observed lines of a previous run
+use crate::o2::*;
 use crate::world::*;
 use compact_jwt::JwsCompact;
 use kanidm_proto::v1::{AuthCredential, AuthMech};
@@ -29,9 +30,17 @@ struct Tok {
     kind: &'static str,
 }
 
+struct O2 {
+    name: String,
+    at: String,
+    rt: String,
+    o: J,
+}
+
 pub struct H {
     w: World,
     toks: Vec<Tok>,
+    grants: Vec<O2>,
     t: u64,
     pw: String,
     pwn: u32,
@@ -87,14 +96,14 @@ impl H {
     async fn new(sessexp: u32, auto_present: bool) -> H {
         let mut w = World::new(0).await;
         w.set_person_policy(0, Some(sessexp), None).await;
-        w.create(0, vec![person("p1", uuid_n(1)), service_account("sa1", uuid_n(2))]).await;
+        w.create(0, vec![person("p1", uuid_n(1)), service_account("sa1", uuid_n(2)), rs_entry(uuid_n(20))]).await;
         let pw = pw_n(0);
         let (r, _) = w.cred_update(0, uuid_n(1), &[CredOp::SetPassword(pw.clone())]).await;
         if r != "ok" {
             eprintln!("TOOL-ERROR cannot provision password: {r}");
             std::process::exit(2);
         }
-        H { w, toks: Vec::new(), t: 0, pw, pwn: 0, auto_present }
+        H { w, toks: Vec::new(), grants: Vec::new(), t: 0, pw, pwn: 0, auto_present }
     }
 
     async fn st(&mut self) -> J {
@@ -140,6 +149,26 @@ impl H {
             let l = self.present_line(i, self.t).await;
             tr.emit(&l);
         }
+        for i in 0..self.grants.len() {
+            let l = self.o2_line(i, self.t).await;
+            tr.emit(&l);
+        }
+    }
+
+    async fn o2_line(&mut self, i: usize, t: u64) -> J {
+        let res = self.w.o2_introspect(t, &self.grants[i].at).await;
+        json!({"a":"o2present","t":t,"g":self.grants[i].name,"o":self.grants[i].o,"res":res})
+    }
+
+    fn o2_info(&mut self, at: &str) -> J {
+        match at_info(at) {
+            Some((sid, parent, iat)) => {
+                let oid = self.w.names.get('o', &sid.to_string());
+                let p = parent.map(|p| self.w.names.get('s', &p.to_string())).unwrap_or_else(|| "none".into());
+                json!({"acct":"p1","oid":oid,"parent":p,"iat":relsecs(iat)})
+            }
+            None => json!({"acct":"p1","oid":"o0","parent":"none","iat":-1}),
+        }
     }
 
     fn tok_by_name(&self, n: &str) -> Option<usize> {
@@ -168,6 +197,65 @@ impl H {
             }
             "tick" => {
                 line["res"] = json!("ok");
+            }
+            "o2present" => {
+                if let Some(i) = act["g"].as_str().and_then(|n| self.grants.iter().position(|g| g.name == n)) {
+                    let l = self.o2_line(i, t).await;
+                    tr.emit(&l);
+                }
+                return;
+            }
+            "o2grant" => {
+                // OAuth2 authorisation by the user behind login token `tok`, code exchanged at once
+                let tn = act["tok"].as_str().unwrap_or("").to_string();
+                line["tok"] = json!(tn);
+                line["acct"] = json!("p1");
+                let r: Result<Grant, String> = match self.tok_by_name(&tn) {
+                    Some(i) => {
+                        let jws = self.toks[i].jws.clone();
+                        match self.w.present(t, &jws).await {
+                            Ok(ident) => match self.w.o2_authorise(t, &ident).await {
+                                Ok(code) => self.w.o2_exchange(t, &code).await,
+                                Err(e) => Err(e),
+                            },
+                            Err(e) => Err(format!("noident:{e}")),
+                        }
+                    }
+                    None => Err("notok".into()),
+                };
+                match r {
+                    Ok(g) => {
+                        let o = self.o2_info(&g.at);
+                        let name = format!("g{}", self.grants.len() + 1);
+                        line["res"] = json!("ok");
+                        line["g"] = json!(name);
+                        line["o"] = o.clone();
+                        self.grants.push(O2 { name, at: g.at, rt: g.rt, o });
+                    }
+                    Err(e) => line["res"] = json!(e),
+                }
+            }
+            "o2refresh" => {
+                let gn = act["g"].as_str().unwrap_or("").to_string();
+                line["g"] = json!(gn);
+                line["acct"] = json!("p1");
+                match self.grants.iter().position(|g| g.name == gn) {
+                    Some(i) => {
+                        let rt = self.grants[i].rt.clone();
+                        match self.w.o2_refresh(t, &rt).await {
+                            Ok(g) => {
+                                let o = self.o2_info(&g.at);
+                                line["res"] = json!("ok");
+                                line["o"] = o.clone();
+                                self.grants[i].at = g.at;
+                                self.grants[i].rt = g.rt;
+                                self.grants[i].o = o;
+                            }
+                            Err(e) => line["res"] = json!(e),
+                        }
+                    }
+                    None => line["res"] = json!("nogrant"),
+                }
             }
             "login" => {
                 let privileged = act["priv"].as_bool().unwrap_or(false);
@@ -418,10 +506,50 @@ async fn random_history(tr: &mut Tracer, rng: &mut Rng, h: u64, len: u64) {
                 if ks.is_empty() { json!({"a":"tick","t":t}) } else { json!({"a":"keyrevoke","t":t,"k":rng.pick(&ks)}) }
             }
             95 => json!({"a":"delete","acct":*rng.pick(&["p1","sa1"]),"t":t}),
+            96..=97 if !live_uat.is_empty() => json!({"a":"o2grant","t":t,"tok":rng.pick(&live_uat)}),
+            98 if !hh.grants.is_empty() => json!({"a":"o2refresh","t":t,"g":hh.grants[rng.below(hh.grants.len() as u64) as usize].name.clone()}),
             _ => json!({"a":"tick","t":t}),
         };
         hh.exec(&act, tr).await;
     }
+}
+
+/// OAuth2-focused history: a grant whose parent login session is then revoked / loses its credential /
+/// was never recorded, observed before and after the grace window.
+async fn o2_history(tr: &mut Tracer, rng: &mut Rng, h: u64) {
+    let mut hh = start(tr, h, 86400, true).await;
+    let mut t = 10u64;
+    let cred = *rng.pick(&["pw", "pw", "pk"]);
+    if cred == "pk" {
+        hh.exec(&json!({"a":"cred","acct":"p1","t":t,"op":"addpk"}), tr).await;
+    }
+    hh.exec(&json!({"a":"login","acct":"p1","t":t,"priv":false,"cred":cred}), tr).await;
+    let applied = rng.chance(3, 4);
+    if applied {
+        hh.exec(&json!({"a":"apply","t":t + 1,"i":0}), tr).await;
+    }
+    let Some(tok) = hh.toks.last().map(|k| k.name.clone()) else { return };
+    t += 2;
+    hh.exec(&json!({"a":"o2grant","t":t,"tok":tok}), tr).await;
+    for _ in 0..rng.range(3, 7) {
+        t += *rng.pick(&[0u64, 1, 100, 250, 298, 299, 300, 301, 600]);
+        let g = hh.grants.last().map(|g| g.name.clone()).unwrap_or_default();
+        let act = match rng.below(12) {
+            0..=2 => json!({"a":"revoke","t":t,"tok":tok}),
+            3..=4 => json!({"a":"cred","acct":"p1","t":t,"op": if cred == "pk" { "rmpk" } else { "replace" }}),
+            5 => json!({"a":"cred","acct":"p1","t":t,"op":"purge"}),
+            6..=7 => json!({"a":"o2refresh","t":t,"g":g}),
+            8 => json!({"a":"apply","t":t,"i":0}),
+            9 => json!({"a":"setvalid","acct":"p1","t":t,"vf":-1,"ex":(t + 150) as i64}),
+            _ => json!({"a":"tick","t":t}),
+        };
+        hh.exec(&act, tr).await;
+    }
+    t = hh.t + 301;
+    hh.exec(&json!({"a":"tick","t":t}), tr).await;
+    let g = hh.grants.last().map(|g| g.name.clone()).unwrap_or_default();
+    hh.exec(&json!({"a":"o2refresh","t":t + 1,"g":g}), tr).await;
+    hh.exec(&json!({"a":"tick","t":t + 400}), tr).await;
 }
 
 /// One behaviour of the model (array of model actions) on a real server, model time unit = UNIT s.
@@ -470,6 +598,17 @@ async fn model_behaviour(tr: &mut Tracer, h: u64, beh: &[J]) {
                 Some(k) => json!({"a":a,"t":t,"tok":k}),
                 None => json!({"a":"tick","t":t}),
             },
+            "o2grant" => match sname_tok(&hh, m["s"].as_str().unwrap_or("")) {
+                Some(k) => json!({"a":"o2grant","t":t,"tok":k}),
+                None => json!({"a":"tick","t":t}),
+            },
+            "o2refresh" => {
+                let o = m["o"].as_str().unwrap_or("");
+                match hh.grants.iter().find(|g| g.o["oid"].as_str() == Some(o)) {
+                    Some(g) => json!({"a":"o2refresh","t":t,"g":g.name.clone()}),
+                    None => json!({"a":"tick","t":t}),
+                }
+            }
             "credremove" => json!({"a":"cred","acct":"p1","t":t,"op":"rm","c":m["c"].as_str().unwrap_or("")}),
             "credadd" => json!({"a":"cred","acct":"p1","t":t,"op":"add"}),
             "credreplace" => json!({"a":"cred","acct":"p1","t":t,"op":"repl"}),
@@ -524,6 +663,10 @@ pub fn run(o: &Opts) -> i32 {
         for _ in 0..o.u64("random", 0) {
             h += 1;
             random_history(&mut tr, &mut rng, h, len).await;
+        }
+        for _ in 0..o.u64("o2", 0) {
+            h += 1;
+            o2_history(&mut tr, &mut rng, h).await;
         }
     });
     let n = tr.finish();
